@@ -9,7 +9,7 @@ _EP_RULE = ("endpoint stream: ONE real endpoint whose peer is the harness (it an
             "messages it emitted (local port numbers renamed by first appearance), the dispatcher status (running/ok/reset/protocol/panic) and the "
             "connect outcomes are compared with the model; distinct = distinct input")
 PROP = {
-    "props_files": ["Props/C10.v"],
+    "props_files": ["Props/C10.v", "Props/C10b.v"],
     "jobs": [
         {"component": "endpoint", "comp_num": 7, "quick": 1600, "thorough": 60000, "timeout": 3000},
         {"component": "net", "comp_num": 70, "quick": 480, "thorough": 30000, "args": ["--stream", "1"], "timeout": 3000},
@@ -23,14 +23,27 @@ PROP = {
                   "ends); the listener queues are bounded by connect_queue+1. Tied to the code by the endpoint differential (connect outcomes compared per "
                   "request, with version 2 and 3 peers) and by two-endpoint streams: concurrent connects against a listener that accepts/rejects/drops with "
                   "small max_ports and connect_queue -- one outcome per request, true reason, pairing checked by remote/local port numbers and by label "
-                  "exchange over every accepted pair -- and the three exhaustion policies (fail / wait / wait with a time limit under the virtual clock).",
-    "level_note": "PARTIAL: pairing across the two endpoints and 'a request reported as sent precedes later data' are exercised (label exchange; FIFO event "
-                  "queue by construction) but not proved for the composed system; resolution at quiescence relies on C03/C07. Cancelled connect/accept "
-                  "futures are covered by the request life cycle (dropped request => rejected) in the model and by the lifecycle stream.",
+                  "exchange over every accepted pair -- and the three exhaustion policies (fail / wait / wait with a time limit under the virtual clock). "
+                  "Composed system (Props/C10b.v; Chmux/Net*.v: two endpoint models joined by two FIFO links, every interleaving of the local actions of both "
+                  "sides and of deliveries): in every reachable state without a protocol error each connected port p of one endpoint (remote q) is in "
+                  "exactly one of three situations -- the peer's ports[q] is Connected with remote p; the peer's ports[q] is Connecting and our "
+                  "PortOpened{q,p} is in flight; or the peer has released its end, in which case both local halves are dropped and announced and the "
+                  "peer's SendFinish/ReceiveFinish have each been received or are in flight exactly once -- and no two connected ports of one endpoint "
+                  "share a remote number (so two ports that name each other are connected to each other and to no other port, across port-number "
+                  "reuse); the first protocol error of any run between two honest endpoints can only be a quantity error (chunk size, buffer overdraw, "
+                  "batch size, empty batch, credit overflow, listener-queue overflow): every error about the state of a port or request is impossible, "
+                  "i.e. every frame one endpoint emits is accepted by the table state of the other when it arrives; no panic site is reachable in the composition.",
+    "level_note": "PARTIAL: pairing across the two endpoints is now PROVED for the composed model (C10_pairing, C10_paired_exclusive, C10_composed_invariant) and "
+                  "additionally exercised by label exchange. Still only exercised / outside the theorems: (i) the quantity errors are excluded from the "
+                  "composed no-error theorem because the endpoint model's sending side carries neither port credits (proved separately for one port in "
+                  "C02/PortFlow.v) nor the connect-request credit of client.rs (the listener-queue bound for an honest client, C10_queue_bound of the "
+                  "design, is exercised by net stream 7, not proved; C10b_quantity_errors_reachable_in_model shows the model reaches PTooManyOpen without it); "
+                  "(ii) 'a request reported as sent precedes later data' rests on the FIFO event queue by construction; (iii) resolution at quiescence relies on "
+                  "C03/C07. Cancelled connect/accept futures are covered by the request life cycle (dropped request => rejected) in the model and by the lifecycle stream.",
     "trivial_sig": r"malformed",
     "rule": _EP_RULE + " net stream 1: connects and exhaustion policies as described in level_text. net stream 7: an accept / reject future cancelled "
             "while it waits for a slot of the full event queue (one slot, stalled transport): the request must still resolve (as rejected) and the dispatchers must "
             "end Ok once everything is dropped; PortsExhausted::Wait(Some(limit)) with free ports and a listener answering after 4 x limit: the connect must wait for "
-            "the answer; exactly connect_queue unanswered requests in an unpolled listener when all remote clients are dropped: no protocol error, every request resolves.",
+            "the answer; exactly connect_queue unanswered requests in an unpolled listener when all remote clients are dropped: no protocol error, every request resolves; connect requests abandoned (futures dropped) against an idle listener: the unanswered requests on the wire never exceed the advertised queue length, the connection survives and new connects go through afterwards.",
     "assumptions": ["paused-clock quiescence barrier"],
 }
